@@ -129,8 +129,11 @@ func (p *Proxy) serveClients(ctx context.Context) {
 func (p *Proxy) forwardRpc(source string, rpc *goatorepo.Rpc) {
 	// Sanity check RPC first
 	if rpc.Header == nil || rpc.Header.Source != source {
-		log.Warn().Msgf("Bad Rpc: %v", rpc)
-		log.Panic().Msg("TODO: handle invalid RPC here (log and ignore?)")
+		// Never forward an envelope without a header or one that claims a
+		// source other than the name its connection is attached under; it
+		// comes from a peer, so it must not bring the proxy down either.
+		log.Warn().Msgf("Bad Rpc from %s: %v: ignoring", source, rpc)
+		return
 	}
 
 	// Apply any sort of address translation first: this allows implementing a
